@@ -500,7 +500,7 @@ impl World for WorldG {
                     let auth = if fault && t.auth && rng.chance(1, 2) {
                         *rng.pick(&[AuthVar::Stranger, AuthVar::Nobody, AuthVar::Counterparty, AuthVar::Owner, AuthVar::RightOtherArgs])
                     } else {
-                        AuthVar::Right
+                        if t.auth && rng.chance(1, 6) { AuthVar::Everyone } else { AuthVar::Right }
                     };
                     if rng.chance(1, 25) {
                         caller = 200;
@@ -629,7 +629,7 @@ impl World for WorldG {
                     }
                 }
                 10 => {
-                    let auth = if fault && t.auth { *rng.pick(&[AuthVar::Stranger, AuthVar::Nobody, AuthVar::Counterparty, AuthVar::Owner, AuthVar::RightOtherArgs]) } else { AuthVar::Right };
+                    let auth = if fault && t.auth { *rng.pick(&[AuthVar::Stranger, AuthVar::Nobody, AuthVar::Counterparty, AuthVar::Owner, AuthVar::RightOtherArgs]) } else if t.auth && rng.chance(1, 6) { AuthVar::Everyone } else { AuthVar::Right };
                     GOp::CallContract {
                         gw: g as u8,
                         sender: if rng.chance(1, 12) { 200 + rng.below(2) as u8 } else { rng.below(4) as u8 },
@@ -641,7 +641,7 @@ impl World for WorldG {
                     }
                 }
                 11 => {
-                    let auth = if fault && t.auth { *rng.pick(&[AuthVar::Stranger, AuthVar::Nobody, AuthVar::Counterparty, AuthVar::RootOnly, AuthVar::RightOtherArgs]) } else { AuthVar::Right };
+                    let auth = if fault && t.auth { *rng.pick(&[AuthVar::Stranger, AuthVar::Nobody, AuthVar::Counterparty, AuthVar::RootOnly, AuthVar::RightOtherArgs]) } else if t.auth && rng.chance(1, 6) { AuthVar::Everyone } else { AuthVar::Right };
                     GOp::ExampleSend {
                         gw: g as u8,
                         user: rng.below(4) as u8,
